@@ -390,6 +390,7 @@ class Run(object):
         self.already_called_seen = 0
         self.signals_before = 0
         self.caller_dir_seen = False
+        self.link_exc_seen = 0
         self.launch_fired_before_tmo = False
 
     # -- plumbing ---------------------------------------------------------------
@@ -723,6 +724,12 @@ class Run(object):
             if e[0] == "AlreadyCalledError":
                 self.already_called_seen += 1
                 self.escaped.append(("logged", defer.AlreadyCalledError(e[1])))
+        if self.link is not None and len(self.link.exceptions) > self.link_exc_seen:
+            for (what, text) in self.link.exceptions[self.link_exc_seen:]:
+                # raised out of dataReceived / connectionLost of the control protocol
+                e = defer.AlreadyCalledError(text) if "AlreadyCalledError" in text else RuntimeError(text)
+                self.escaped.append(("control-" + what, e))
+            self.link_exc_seen = len(self.link.exceptions)
         for (what, e) in self.escaped:
             rec.seen("escaped_exceptions", "%s: %s" % (type(e).__name__, PATHS.sub("<path>", str(e))[:60]))
             rec.count("escaped_exceptions")
@@ -838,8 +845,10 @@ class Run(object):
         self.log.stop()
         for o in self.obs:
             o.d = None
+        base = os.path.realpath(tempfile.gettempdir()) + os.sep
         for p in (self.temp_dir, self.root):
-            if p and os.path.exists(p):
+            # only ever remove what lies inside the scratch TMPDIR of this shard
+            if p and os.path.exists(p) and os.path.realpath(p).startswith(base) and len(base) > 5:
                 try:
                     os.chmod(p, stat.S_IRWXU)
                 except OSError:
